@@ -50,6 +50,7 @@ type checkCtx struct {
 	noReplay   bool
 	selftest   map[string][]selftestResult
 	xcheck     map[string]int
+	audit      *auditResult
 }
 
 func (cc *checkCtx) printf(format string, a ...interface{}) {
@@ -169,6 +170,9 @@ func cmdCheck(args []string) int {
 	loadSecs := time.Since(t0).Seconds()
 	exit := 0
 	newBaseline := map[string][]string{}
+	if *tier == "thorough" && os.Getenv("GOVC_NO_AUDIT") == "" {
+		cc.audit = runAudit(*verif)
+	}
 	for _, pr := range props {
 		if *tier == "thorough" && os.Getenv("GOVC_NO_SELFTEST") == "" {
 			if cc.selftest == nil {
@@ -489,6 +493,9 @@ func (cc *checkCtx) checkProperty(prop string, seed int, known []KnownFinding, b
 		}
 	}
 	sort.Strings(missing)
+	if cc.audit != nil && !cc.audit.OK {
+		engineErrs = append(engineErrs, "bounded audit of the assumed extern contracts failed: "+cc.audit.Output)
+	}
 	for _, sr := range cc.selftest[prop] {
 		if sr.Applied && !sr.Detected {
 			engineErrs = append(engineErrs, fmt.Sprintf("self-test: seeded change %s was not reported (%s)", sr.Seed, sr.Note))
@@ -719,6 +726,9 @@ func (cc *checkCtx) writeEvidence(prop string, seed int, recs []*obRecord, units
 		"assumptions": ass,
 		"wall_s":      wall,
 		"violations":  violations,
+	}
+	if cc.audit != nil {
+		ev["coverage"].(map[string]interface{})["bounded"] = []string{fmt.Sprintf("bounded (NOT counted as proved): executable audit of the assumed contracts of stdlib/grpc functions in /verif/audit (pseudo-random inputs, seed %d, about 20000 cases per group): ok=%v in %.1fs", seed, cc.audit.OK, cc.audit.Secs)}
 	}
 	if cc.xcheck != nil {
 		ev["coverage"].(map[string]interface{})["second_solver_recheck"] = cc.xcheck
